@@ -67,6 +67,7 @@ func genSnap(r drv.Rand, n int) snapCase {
 	sc := snapCase{cfg: randCfg(r)}
 	i, stor := 11, 12
 	c := r.IntN(3)
+	tn := 1 + r.IntN(2)
 	withClient := func() []roptd {
 		if c == 0 && r.Bool() {
 			return nil
@@ -97,9 +98,9 @@ func genSnap(r drv.Rand, n int) snapCase {
 			sc.cfg.spare = true
 			sc.directed = "Fxx-C20-3"
 		}
-		sc.o = newRP(i, oauth, opts)
+		sc.o = newRP(i, oauth, tn, opts)
 	case 6:
-		sc.o = newRP(i, true, append(withClient(), genRopt(r)))
+		sc.o = newRP(i, true, 1, append(withClient(), genRopt(r)))
 	case 7:
 		cc := -1
 		if r.Bool() {
@@ -107,11 +108,11 @@ func genSnap(r drv.Rand, n int) snapCase {
 		}
 		switch r.IntN(3) {
 		case 0:
-			sc.o = newRS(i, cc, r.Bool(), r.Chance(1, 3))
+			sc.o = newRS(i, cc, r.Bool(), r.Chance(1, 3), tn)
 		case 1:
-			sc.o = newTE(i, cc, r.Bool(), r.IntN(3))
+			sc.o = newTE(i, cc, r.Bool(), r.IntN(3), tn)
 		default:
-			sc.o = newKeySet(i, c)
+			sc.o = newKeySet(i, c, tn)
 		}
 	case 8, 9: // requests against a provider / legacy server
 		if r.Bool() {
@@ -127,8 +128,8 @@ func genSnap(r drv.Rand, n int) snapCase {
 	case 10:
 		sc.o = devGetAudience()
 	case 11, 12:
-		sc.setup = []opd{newRP(i, false, append(withClient(), roptVerOpts))} // ES256 allowed: id tokens verify
-		sc.o = rpCall(i, c, r.IntN(10))
+		sc.setup = []opd{newRP(i, false, tn, append(withClient(), roptVerOpts))} // ES256 allowed: id tokens verify
+		sc.o = rpCall(i, c, r.IntN(10), tn)
 	case 13:
 		cc := -1
 		if c > 0 {
@@ -136,14 +137,14 @@ func genSnap(r drv.Rand, n int) snapCase {
 		}
 		switch r.IntN(3) {
 		case 0:
-			sc.setup = []opd{newRS(i, cc, r.Bool(), false)}
-			sc.o = rsIntrospect(i, c)
+			sc.setup = []opd{newRS(i, cc, r.Bool(), false, tn)}
+			sc.o = rsIntrospect(i, c, tn)
 		case 1:
-			sc.setup = []opd{newTE(i, cc, r.Bool(), 0)}
-			sc.o = teExchange(i, c)
+			sc.setup = []opd{newTE(i, cc, r.Bool(), 0, tn)}
+			sc.o = teExchange(i, c, tn)
 		default:
-			sc.setup = []opd{newKeySet(i, c)}
-			sc.o = ksVerify(i, c)
+			sc.setup = []opd{newKeySet(i, c, tn)}
+			sc.o = ksVerify(i, c, tn)
 		}
 	default:
 		sc.o = clientCall(c, r.IntN(7))
@@ -206,12 +207,19 @@ type group struct {
 	probe opd
 }
 
-func genGroup(r drv.Rand, g int) (group, string) {
+func genGroup(r drv.Rand, g int, kind, tenant int) (group, string) {
 	i, stor := 10*g+1, 10*g+2
 	c := r.IntN(3)
 	cc := c
 	copt := []roptd{roptClient(c)}
-	switch r.IntN(8) {
+	tn := 1 + r.IntN(2)
+	if tenant > 0 {
+		tn = tenant
+	}
+	if kind < 0 {
+		kind = r.IntN(9)
+	}
+	switch kind {
 	case 0:
 		return group{[]opd{newProvider(i, stor, nil, 0)}, provReq(i, stor, 0)}, "prov-default"
 	case 1:
@@ -223,25 +231,36 @@ func genGroup(r drv.Rand, g int) (group, string) {
 	case 2:
 		return group{[]opd{newLegacy(i, stor)}, provReq(i, stor, 0)}, "legacy"
 	case 3:
-		ops := []opd{newRP(i, false, append(copt, roptVerOpts))}
+		ops := []opd{newRP(i, false, tn, append(copt, roptVerOpts))}
 		for _, k := range []int{4, 5, 3, 2, 8, 9, 1} {
 			if r.Chance(1, 2) {
-				ops = append(ops, rpCall(i, c, k))
+				ops = append(ops, rpCall(i, c, k, tn))
 			}
 		}
-		return group{ops, rpCall(i, c, 2)}, "rp"
+		return group{ops, rpCall(i, c, 2, tn)}, "rp"
 	case 4:
 		var ops []opd
 		for j := 1 + r.IntN(3); j > 0; j-- {
 			ops = append(ops, clientCall(c, r.IntN(6)))
 		}
 		return group{ops, clientCall(c, r.IntN(2))}, "client"
-	case 5:
-		return group{[]opd{newRS(i, cc, false, false)}, rsIntrospect(i, c)}, "rs"
+	case 5: // resource servers with IDENTICAL client id / key id, possibly different issuers
+		jwt := r.Chance(2, 3)
+		ops := []opd{newRS(i, cc, false, jwt, tn)}
+		if r.Bool() {
+			ops = append(ops, rsIntrospect(i, c, tn))
+		}
+		return group{ops, rsIntrospect(i, c, tn)}, fmt.Sprintf("rs-jwt=%v", jwt)
 	case 6:
-		return group{[]opd{newTE(i, cc, false, 0), teExchange(i, c)}, teExchange(i, c)}, "te"
+		return group{[]opd{newTE(i, cc, false, r.IntN(3), tn), teExchange(i, c, tn)}, teExchange(i, c, tn)}, "te"
+	case 7: // key sets of two issuers that publish the same kid
+		ops := []opd{newKeySet(i, c, tn)}
+		if r.Bool() {
+			ops = append(ops, ksVerify(i, c, tn))
+		}
+		return group{ops, ksVerify(i, c, tn)}, "keyset"
 	}
-	return group{[]opd{newRP(i, true, append(copt, genRopt(r))), clientCall(c, 2+r.IntN(2))}, clientCall(c, 0)}, "rpoauth"
+	return group{[]opd{newRP(i, true, 1, append(copt, genRopt(r))), clientCall(c, 2+r.IntN(2))}, clientCall(c, 0)}, "rpoauth"
 }
 
 func runGroupSeq(cfg worldCfg, seq []opd, probes []opd) (res [][]int, panicked string) {
@@ -281,8 +300,14 @@ func runOrder(w *emit.Writer, r drv.Rand) {
 	ng := 2 + r.IntN(3)
 	var groups []group
 	var names []string
+	// "twins": instances of ONE kind with identical identifiers (client id, key id, kid, redirect uri ...)
+	// but alternating issuers / keys, created and used in a random order (A, B, A ...)
+	twins := -1
+	if r.Chance(2, 5) {
+		twins = drv.Pick(r, []int{3, 5, 5, 6, 7})
+	}
 	for g := 1; g <= ng; g++ {
-		gr, name := genGroup(r, g)
+		gr, name := genGroup(r, g, twins, map[bool]int{true: 1 + (g+1)%2, false: 0}[twins >= 0])
 		groups = append(groups, gr)
 		names = append(names, name)
 	}
@@ -330,7 +355,7 @@ func runOrder(w *emit.Writer, r drv.Rand) {
 	if p != "" {
 		obs = "OPanic"
 	}
-	tags := append([]string{"kind=order", fmt.Sprintf("groups=%d", ng), "mix=" + strings.Join(names, "+")}, cfgTags(cfg)...)
+	tags := append([]string{"kind=order", fmt.Sprintf("groups=%d", ng), "mix=" + strings.Join(names, "+"), fmt.Sprintf("twins=%v", twins >= 0)}, cfgTags(cfg)...)
 	w.Add(emit.Case{Input: emit.Ctor("IOrder", lvList(h0), emit.List(tagged), emit.List(ptagged)), Observed: obs, Tags: tags,
 		Human: map[string]any{"sequence": tagged, "probes": ptagged, "alone": alone, "together": together, "panic": p}})
 }
@@ -354,6 +379,9 @@ func main() {
 	}
 	for n := 0; n < nOrder; n++ {
 		runOrder(w, r)
+	}
+	for n := 0; n < nOrder/2; n++ {
+		runHandlers(w, r)
 	}
 	extra := map[string]any{"calls_succeeded": okCount}
 	notes := raceTier(w, cfg, extra) // quick: reduced (1 round, 30% iterations); thorough: 2 rounds
